@@ -6,10 +6,7 @@
    a visit raises, everything written before stays written: render_997 returns
    the handler state, the lines and the exception, if any.
 
-   Iteration order of Python sets: `for err_cde in list(set(errors))` in
-   visit_seg runs in hash order.  The model runs it in SORTED order (Python str
-   order = code point order); the comparison harness makes the implementation
-   do the same at exactly that place (see harness/errh_impl.py). *)
+   visit_seg iterates sorted(set(errors)) (since fix 45b72b1; it was hash order before). *)
 From Coq Require Import String.
 From PX.Lib Require Import Base PyStr PyInt.
 From PX.Model Require Import Path Segment Errh.
